@@ -179,12 +179,6 @@ theorem totals_positive :
 theorem nsf_keys_distinct : (PtGen.nsfRows.map nsfKeyOf).Nodup :=
   nodup_of_strictSorted _ nsf_keys_sorted
 
-/-- elements without a row of their own and exactly one isotope row -/
-def singleIsotope (rows : List NsfRow) (z : Nat) : Option Nat :=
-  match rows.filter (fun r => r.z == z) with
-  | [r] => if r.a = 0 then none else some r.a
-  | _ => none
-
 /-- **every single-isotope element points to its isotope's record** -/
 theorem single_isotope_elements_share :
     allZ.all (fun z => match singleIsotope PtGen.nsfRows z with
@@ -240,10 +234,6 @@ theorem ed_targets_are_rows :
 section generated
 variable {α : Type} [Add α] [Sub α] [Mul α] [Div α] [Neg α] [OfNat α 0] [NatCast α] [IntCast α]
   [Transc α]
-
-/-- the record an atom of the embedded table reports -/
-def atomRec (st : NsfState α) (z a : Nat) : NRec α :=
-  if a = 0 then st.elNeutron z else st.isoNeutron z a
 
 theorem atomRec_of_row (env : NsfEnv α) (i : Nat) (r : NsfRow) (h : PtGen.nsfRows[i]? = some r) :
     atomRec (Nsf.loadRows env PtGen.nsfTables) r.z r.a = (Nsf.loadRows env PtGen.nsfTables).getRec (i + 1) := by
